@@ -301,6 +301,10 @@ def run(run):
                     run.violation("C19.neighbours:plan-depends-on-planning-order", f"{nme}|forward vs {label}", f"forward: {fwd[nme][0]} divisions {fwd[nme][1][:3]}..; {label}: {other[nme][0]} divisions {other[nme][1][:3]}..", {"kind": "none"})
     except Exception as ex:
         run.errors.append("neighbour plans: " + repr(ex)[:300])
+    # tier P: what the drivers guarantee by themselves (a returned plan is a fixed point of the pass that was iterated)
+    from vf.contracts.registry import run_property_specs
+
+    run_property_specs(run, "C19")
     run.assume("termination of the rewrite system for programs outside the corpus is NOT decided; the bounded contract checks a step budget of 60*nodes^2+2000 rule firings and a 60 s watchdog per optimize() call")
     run.trust("vf/rt/corpus.py program catalogue")
 
